@@ -180,6 +180,14 @@ func (a c10arr) MarshalLogArray(enc zapcore.ArrayEncoder) error {
 			}
 		case c10Str:
 			enc.AppendString(fmt.Sprintf("s%d", kid.val))
+		case c10Reflect:
+			var v any = map[string]int{"v": kid.val}
+			if !a.healthy && kid.fault == ftUnencodable {
+				v = make(chan int)
+			}
+			if err := enc.AppendReflected(v); err != nil {
+				return err
+			}
 		default:
 			enc.AppendInt(kid.val)
 		}
@@ -335,7 +343,10 @@ func (q *c10gen) node(depth int, top bool) *c10node {
 	case c10Arr:
 		for i := 0; i < g.Draw(4); i++ {
 			k := &c10node{val: g.Draw(100)}
-			switch g.Weighted(3, 2, 2, 1) {
+			switch g.Weighted(3, 2, 2, 1, 2) {
+			case 4:
+				k.kind = c10Reflect
+				q.maybeFault(k, ftUnencodable)
 			case 0:
 				k.kind = c10Int
 			case 1:
